@@ -54,6 +54,7 @@ Elem *env_copy_n__pcE_uc_pE (const Elem *first, unsigned char n, Elem *d);
 _Bool env_op_eq__pcII_pcII (const struct InputIt *a, const struct InputIt *b);
 const Elem *env_op_deref__pII (struct InputIt *it);
 struct InputIt *env_op_inc__pII (struct InputIt *it);
+void env_advance__pII_l (struct InputIt *it, long n);
 _Bool env_op_eq__pcFI_pcFI (const struct FwdIt *a, const struct FwdIt *b);
 const Elem *env_op_deref__pFI (struct FwdIt *it);
 struct FwdIt *env_op_inc__pFI (struct FwdIt *it);
